@@ -486,3 +486,17 @@ Qed.
 
 Lemma document_depth_bound s d : parse_document s = POk d -> tbl_depth (doc_root d) <= DEPTH_BOUND.
 Proof. intro H. apply tb_root_depth. exact (parse_document_tb _ _ H). Qed.
+
+(* the value entry point (`Value::from_str`) *)
+Lemma parse_value_depth s v : parse_value_raw s = POk v -> value_depth v <= 2 * LIMIT - 3.
+Proof.
+  unfold parse_value_raw, parse_all. intro H.
+  destruct ((a <- value_ ;; eof ;;; ret a) (new_input s)) as [x i'|e i'|e i'|p] eqn:E; try discriminate.
+  cbn [lift_outcome] in H. inversion H; subst.
+  apply bind_ok in E as (v0 & i1 & Hv & E).
+  apply bind_ok in E as (u & i2 & _ & E). inversion E; subst.
+  exact (value_depth_bound_top _ _ _ Hv).
+Qed.
+
+Lemma DEPTH_BOUND_value : DEPTH_BOUND = 394.
+Proof. reflexivity. Qed.
